@@ -9,7 +9,8 @@ PHIS = [(0, 1), (1, 3), (1, 2), (3, 4), (1, 1)]
 
 def run(chk):
     thorough = chk.tier == "thorough"
-    chk.mc("MC_Percolation", "MC_Percolation.cfg", required=["Decide", "Eval"])
+    chk.mc("MC_Percolation", "MC_Percolation.cfg", required=["Decide", "Eval", "EditAndPercolateAgain"])
+    chk.mc("MC_Percolation", "MC_Percolation_stale.cfg", expect_violation="C18_OnlyCurrentEdges")
     rng = _r.Random(chk.seed)
     traces = []
     for n in (1, 2, 3, 4) + ((5,) if thorough else ()):
@@ -24,14 +25,22 @@ def run(chk):
                     continue
                 # vertex ids need not be 0..N-1: 1-based and strided relabellings of the same graph
                 f = [lambda v: v, lambda v: v + 1, lambda v: 7 + 3 * v][(mask + a) % 3]
-                traces.append(P.run_perc({"V": [f(v) for v in V], "E": [[f(x), f(y)] for x, y in E], "a": a, "b": b, "mode": ("tree",)}))
+                case = {"V": [f(v) for v in V], "E": [[f(x), f(y)] for x, y in E], "a": a, "b": b, "mode": ("tree",)}
+                if (mask + a) % 2 == 0 and 0 < len(E) < len(pairs):
+                    # the graph object has a past: it was percolated with the same number of edges in other places, then edited
+                    other = next(m for m in itertools.chain(range(mask + 1, 1 << len(pairs)), range(mask)) if bin(m).count("1") == len(E))
+                    case["pre_E"] = [[f(pairs[i][0]), f(pairs[i][1])] for i in range(len(pairs)) if other >> i & 1]
+                traces.append(P.run_perc(case))
     for M in range(1, 9 if thorough else 7):                     # stars: (N*S - 1)/M ~ Binomial(M, phi)/M
         for a, b in PHIS:
             if b ** M > (70000 if thorough else 4100):
                 continue
             hub = [0, M, 50][(M + a) % 3]          # the hub need not be the first or the smallest vertex
             leaves = [v for v in range(0, M + 1) if v != hub] if hub <= M else list(range(M))
-            traces.append(P.run_perc({"V": leaves[:1] + [hub] + leaves[1:], "E": [[hub, v] for v in leaves], "a": a, "b": b, "mode": ("tree",)}))
+            case = {"V": leaves[:1] + [hub] + leaves[1:], "E": [[hub, v] for v in leaves], "a": a, "b": b, "mode": ("tree",)}
+            if M >= 2 and (M + a) % 2 == 0:
+                case["pre_E"] = [[leaves[0], v] for v in leaves[1:] + [hub]]          # the hub used to be a leaf
+            traces.append(P.run_perc(case))
     chk.exhaustive["the whole aligned RNG tree for every graph on <= 4 vertices (isolated vertices allowed) and stars with <= 6 leaves, phi in {0,1/3,1/2,3/4,1}"] = \
         all(t["exhaustive"] for t in traces if not t["raised"])
     und = [t for t in traces if t.get("undecided")]
